@@ -587,6 +587,17 @@ func (m *engineMon) afterOp(opLine string, pre *pokerface.GameState, err error) 
 			if has(a, "raise") && cw == 0 {
 				bad("raise offered although nobody has wagered")
 			}
+			// the converse half ("call, bet and raise are never offered in the opposite situations"), as the iff C11.offered_iff proves, with the
+			// ghost size of the last bet or raise as carried out
+			if has(a, "call") && !(facing && p.InitialStackSize > cw) {
+				bad("call offered to a player who cannot cover the wager with chips to spare")
+			}
+			if has(a, "bet") && !(!facing && cw == 0 && p.InitialStackSize >= mb) {
+				bad("bet offered to a player who faces a wager or holds less than the minimum bet")
+			}
+			if has(a, "raise") && !((facing && p.InitialStackSize > cw+prev) || (!facing && cw != 0 && p.InitialStackSize >= mb)) {
+				bad("raise offered to a player who does not hold more than the minimum raise (or, level with the wager, the minimum bet)")
+			}
 			o.Mark("C11", fmt.Sprintf("%v|%v|%v|%v|%s", facing, p.InitialStackSize > cw, p.InitialStackSize > cw+prev, p.InitialStackSize >= mb, strings.Join(a, ",")))
 		}
 	}
@@ -612,6 +623,18 @@ func (m *engineMon) afterOp(opLine string, pre *pokerface.GameState, err error) 
 					opLine, err, ps.CurrentWager, m.lastRaise, pp.Wager, pp.InitialStackSize, ps.MiniBet))
 			}
 			o.Count("engine.c12.refused_raise_checked")
+		}
+	}
+
+	// C12, last sentence: no amount argument can make a POT negative either — the round pot shown and the published pots included
+	if op.kind == "act" {
+		if st.CurrentRoundPot < 0 {
+			m.V("C12", "amounts_safe", fmt.Sprintf("%s made the round pot %d", opLine, st.CurrentRoundPot))
+		}
+		for _, pt := range st.Pots {
+			if pt.Total < 0 || pt.Wager < 0 {
+				m.V("C12", "amounts_safe", fmt.Sprintf("%s made a published pot negative: level %d wager %d total %d", opLine, pt.Level, pt.Wager, pt.Total))
+			}
 		}
 	}
 
